@@ -441,6 +441,32 @@ def _handler_ancestors(g, nid):
     return {h for h in out if must_pass(g, g.entry.id, nid, [h])}
 
 
+def _worker_calls(g):
+    """[(cfg node, call)] of the calls of a registered worker in work_cb:
+    `self._workers[<state>](..)`, or a call of a local which is bound to
+    `self._workers[<state>]` / `self._workers.get(<state>)` by every
+    definition that reaches the call"""
+    def is_lookup(e):
+        return e is not None and (
+            (isinstance(e, ast.Subscript) and
+             'self._workers' in unparse(e.value)) or
+            (isinstance(e, ast.Call) and
+             unparse(e.func) == 'self._workers.get'))
+    out = []
+    for n in g.stmt_nodes():
+        if n.kind != 'stmt':
+            continue
+        for c in calls_in(n.ast):
+            if isinstance(c.func, ast.Subscript) and \
+                    'self._workers' in unparse(c.func):
+                out.append((n, c))
+            elif isinstance(c.func, ast.Name):
+                defs = reaching_defs(g, c.func.id, n.id)
+                if defs and all(is_lookup(v) for d, v in defs):
+                    out.append((n, c))
+    return out
+
+
 # ------------------------------------------------------------------------------
 # R05.3  component survival
 #
@@ -453,9 +479,7 @@ def r05_3(prog, rep, rid='R05.3'):
     rep.saw(f)
     g = cfg_of(f)
     smap = I.stmt_node_map(g)
-    workers = [n for n in g.stmt_nodes() if n.kind == 'stmt' and any(
-        isinstance(c.func, ast.Subscript) and
-        'self._workers' in unparse(c.func) for c in calls_in(n.ast))]
+    workers = [n for n, c in _worker_calls(g)]
     if not workers:
         raise AnalysisError('UNRECOGNISED-IDIOM %s: worker call' % f.where)
     failed = prog.const('states.py', 'FAILED')
@@ -4295,6 +4319,151 @@ def r05_17(prog, rep, rid='R05.17'):
 
 # ------------------------------------------------------------------------------
 #
+# ------------------------------------------------------------------------------
+# R05.19  the bulk the worker handler fails is the bulk the worker was given
+#
+# BaseComponent.work_cb drops the canceled things from the bulk before the
+# worker is called (`is_canceled` has advanced them to CANCELED already: they
+# are final).  The handler of the worker call fails "the things whose handling
+# raised".  Necessary condition for "exactly one final state": the list the
+# handler fails is, on every path through the worker call, the very list that
+# was handed to the worker - the definitions of the failed name which reach the
+# worker call are the definitions which reach the worker's argument (plain
+# copies `a = b` / `list(b)` / `b[:]` are followed).  A handler which fails an
+# earlier binding (the unfiltered bulk) fails things again which were already
+# CANCELED and were never given to the worker.
+#
+def _bulk_roots(g, e, at, depth=0):
+    """the bindings which the value of expression `e` has at cfg node `at`:
+    {('def', node id)} for the reaching definitions of a name, plain copies
+    followed to what they copy; {('expr', text)} for anything else"""
+    e = _strip_wrappers(e)
+    if not isinstance(e, ast.Name):
+        return {('expr', unparse(e))}
+    out = set()
+    defs = reaching_defs(g, e.id, at)
+    if not defs:
+        return {('name', e.id)}
+    for n, v in defs:
+        v0 = _strip_wrappers(v) if v is not None else None
+        if isinstance(v0, ast.Name) and n.kind == 'stmt' and depth < 5 and \
+                isinstance(n.ast, (ast.Assign, ast.AnnAssign)) and \
+                v0.id != e.id:
+            out |= _bulk_roots(g, v0, n.id, depth + 1)
+        else:
+            out.add(('def', n.id))
+    return out
+
+
+def _failed_bulk(g, region, smap, name, call, depth=0):
+    """(name, decided): the bulk name behind `name` as used by the FAILED
+    hand-on `call` of the handler: the element of a `for x in B` loop of the
+    handler stands for B; a name re-bound in the handler in any other way is
+    not decided"""
+    cn = smap.get(id(call))
+    if cn is None:
+        return name, False
+    inner = [n for n, v in reaching_defs(g, name, cn.id) if n.id in region]
+    if not inner:
+        return name, True
+    if depth > 3 or len(inner) != 1 or inner[0].kind != 'for' or \
+            not isinstance(inner[0].ast.target, ast.Name):
+        return name, False
+    it = _strip_wrappers(inner[0].ast.iter)
+    if not isinstance(it, ast.Name):
+        return name, False
+    # the loop itself must see the binding from outside the handler
+    if any(n.id in region for n, v in reaching_defs(g, it.id, inner[0].id)):
+        return it.id, False
+    return it.id, True
+
+
+def r05_19(prog, rep, rid='R05.19'):
+    rep.rule(rid, 'the handler of the worker call in BaseComponent.work_cb '
+             'fails the bulk that was handed to the worker (same bindings on '
+             'every path through the worker call), not an earlier, unfiltered '
+             'one', minimum=1)
+    comp = prog.cls(*COMP)
+    f = prog.find_method(comp, 'work_cb')
+    rep.saw(f)
+    g = cfg_of(f)
+    smap = I.stmt_node_map(g)
+    workers = _worker_calls(g)
+    if not workers:
+        raise AnalysisError('UNRECOGNISED-IDIOM %s: worker call' % f.where)
+    entries = [x for x in _failure_handlers(prog) if x[1] is f]
+    for w, wc in workers:
+        if len(wc.args) != 1 or wc.keywords or \
+                isinstance(wc.args[0], ast.Starred):
+            raise AnalysisError('UNRECOGNISED-IDIOM %s: the worker is not '
+                                'called with one bulk `%s`'
+                                % (f.where, short(wc, 60)))
+        hs = []
+        for e in g.succ[w.id]:
+            if e.label == 'exc':
+                t = g.nodes[e.dst]
+                hs = [g.nodes[x.dst] for x in g.succ[t.id]] \
+                    if t.kind == 'dispatch' else [t]
+        hids = {h.id for h in hs if h.kind == 'handler'}
+        given = _bulk_roots(g, wc.args[0], w.id)
+        seen = set()
+        for K, f_, g_, h, tv, region, ev, parts in entries:
+            if h.id not in hids:
+                continue
+            for evs in ev.values():
+                for kind, H, call in evs:
+                    if kind != 'failed' or not any(
+                            _carries(x, {tv}) for x in list(call.args) +
+                            [k.value for k in call.keywords]):
+                        continue
+                    bulk, decided = _failed_bulk(g_, region, smap, tv, call)
+                    if (h.id, bulk) in seen:
+                        continue
+                    seen.add((h.id, bulk))
+                    if not decided:
+                        rep.info(rid, f, 'the handler re-binds `%s` before it '
+                                 'fails it: not compared with the worker\'s '
+                                 'argument' % bulk, f.loc(call))
+                        continue
+                    failed_ = _bulk_roots(g_, ast.Name(id=bulk,
+                                                       ctx=ast.Load()), w.id)
+                    ok = failed_ == given
+                    rep.check(ok, rid, f, 'handler(%s) of the worker call '
+                              'fails the bulk `%s` the worker was given'
+                              % (_htype(h), short(wc.args[0], 30)),
+                              construct='work_cb:handler(%s):fails-worker-bulk'
+                              % _htype(h),
+                              message='BaseComponent.work_cb hands `%s` to the '
+                              'worker but its error handler fails `%s`, which '
+                              'on some path through the worker call is bound '
+                              'elsewhere (bindings reaching the worker '
+                              'argument: lines %s; reaching the failed bulk: '
+                              'lines %s): the things filtered out before the '
+                              'worker call (canceled ones, which is_canceled '
+                              'has already advanced to CANCELED) are failed '
+                              'too, or things the worker was working on are '
+                              'not failed'
+                              % (short(wc.args[0], 40), bulk,
+                                 _root_lines(g, f, given),
+                                 _root_lines(g, f, failed_)),
+                              loc=f.loc(h.ast),
+                              history='one bulk with a task whose uid is on '
+                              'the cancel list and a task for which the worker '
+                              'raises: the canceled task is published CANCELED '
+                              'and then FAILED (two final states, with the '
+                              'neighbour\'s exception recorded on it)')
+
+
+def _root_lines(g, f, roots):
+    out = []
+    for k, v in sorted(roots, key=str):
+        if k == 'def':
+            out.append(str(getattr(g.nodes[v].ast, 'lineno', '?')))
+        else:
+            out.append('`%s`' % v)
+    return ','.join(out) or '-'
+
+
 def run(prog, rep, tier):
     rep.decided = ('route table: every pushing hand-on to a non-final state '
         'has an output row in its component and a consumer with a worker on '
@@ -4319,7 +4488,10 @@ def run(prog, rep, tier):
         'handler that fails its thing records the exception on it (three '
         'handlers of the unchanged tree do not: R05.10); the worker handler '
         'of BaseComponent.work_cb records the exception on every thing '
-        'before the FAILED hand-on; the client output stager sorts every '
+        'before the FAILED hand-on and fails the very bulk the worker '
+        'was given (same bindings on every path through the worker '
+        'call, R05.19: things filtered out as canceled are not failed '
+        'again); the client output stager sorts every '
         'task of a bulk into exactly one of the lists it hands on; raptor '
         'Master._result_cb maps exit code 0 to DONE and every other or '
         'missing code to FAILED (R05.11 = R20.4 re-evaluated); state updates '
@@ -4349,6 +4521,7 @@ def run(prog, rep, tier):
     rep.attempt(r05_16, prog, rep)
     rep.attempt(r05_17, prog, rep)
     rep.attempt(r05_18, prog, rep)
+    rep.attempt(r05_19, prog, rep)
     # exactly one final state when process exit and cancel coincide
     from .c07 import r07_2
     rep.attempt(r07_2, prog, rep, rid='R07.2')
@@ -5223,4 +5396,102 @@ SILENT += [
          "                    pilot = None\n"
          "                    if pid in self._pilots:\n"
          "                        pilot = self._pilots[pid]['pilot']\n")]),
+]
+
+
+# round 7: R05.19 (the worker handler of work_cb fails the bulk the worker got)
+#
+_R7_FILTER = ("                    if self._cancel_list:\n"
+              "                        things = [x for x in things\n"
+              "                                    if not self.is_canceled(x)]\n")
+_R7_CALL   = "                    self._workers[state](things)\n"
+
+MUTATIONS += [
+    dict(name='R05.19 cancel filter binds a new local, handler fails the unfiltered bulk (seed C05-j1)', rules=('R05.19',), edits=[
+        (_U, _R7_FILTER,
+         "                    active = things\n"
+         "                    if self._cancel_list:\n"
+         "                        active = [x for x in things\n"
+         "                                    if not self.is_canceled(x)]\n"),
+        (_U, _R7_CALL, "                    self._workers[state](active)\n")]),
+    dict(name='R05.19 filtered bulk built inline in the worker call', rules=('R05.19',), edits=[
+        (_U, _R7_FILTER, ""),
+        (_U, _R7_CALL,
+         "                    self._workers[state]([x for x in things\n"
+         "                                          if not self.is_canceled(x)])\n")]),
+    dict(name='R05.19 handler fails a copy of the bulk saved before the cancel filter', rules=('R05.19',), edits=[
+        (_U, _R7_FILTER, "                    received = list(things)\n" + _R7_FILTER),
+        (_U, _WCB_REC + _WCB_ADV,
+         "                        for thing in received:\n"
+         "                            thing['exception']        = repr(e)\n"
+         "                            thing['exception_detail'] = \\\n"
+         "                                             '\\n'.join(ru.get_exception_trace())\n"
+         "\n"
+         "                        self.advance(received, rps.FAILED, publish=True,\n"
+         "                                                           push=False)\n\n")]),
+    dict(name='R05.19 handler fails the unfiltered things one by one', rules=('R05.19',), edits=[
+        (_U, _R7_FILTER,
+         "                    todo = things\n"
+         "                    if self._cancel_list:\n"
+         "                        todo = [x for x in things\n"
+         "                                  if not self.is_canceled(x)]\n"),
+        (_U, _R7_CALL, "                    self._workers[state](todo)\n"),
+        (_U, _WCB_REC + _WCB_ADV,
+         "                        for thing in things:\n"
+         "                            thing['exception']        = repr(e)\n"
+         "                            thing['exception_detail'] = \\\n"
+         "                                             '\\n'.join(ru.get_exception_trace())\n"
+         "                            self.advance(thing, rps.FAILED, publish=True,\n"
+         "                                                            push=False)\n\n")]),
+]
+
+SILENT += [
+    dict(name='R05.19 filtered bulk in a new local used by worker call and handler alike', edits=[
+        (_U, _R7_FILTER,
+         "                    active = things\n"
+         "                    if self._cancel_list:\n"
+         "                        active = [x for x in things\n"
+         "                                    if not self.is_canceled(x)]\n"),
+        (_U, _R7_CALL, "                    self._workers[state](active)\n"),
+        (_U, _WCB_REC + _WCB_ADV,
+         "                        for thing in active:\n"
+         "                            thing['exception']        = repr(e)\n"
+         "                            thing['exception_detail'] = \\\n"
+         "                                             '\\n'.join(ru.get_exception_trace())\n"
+         "\n"
+         "                        self.advance(active, rps.FAILED, publish=True,\n"
+         "                                                         push=False)\n\n")]),
+    dict(name='R05.19 worker called with an alias of the filtered bulk taken after the filter', edits=[
+        (_U, _R7_CALL,
+         "                    bulk = things\n"
+         "                    self._workers[state](bulk)\n")]),
+    dict(name='R05.19 cancel filter as an explicit loop, early-continue form', edits=[
+        (_U, _R7_FILTER,
+         "                    if self._cancel_list:\n"
+         "                        kept = list()\n"
+         "                        for x in things:\n"
+         "                            if self.is_canceled(x):\n"
+         "                                continue\n"
+         "                            kept.append(x)\n"
+         "                        things = kept\n")]),
+    dict(name='R05.19 cancel filter extracted into a helper method, worker looked up first', edits=[
+        (_U, _R7_FILTER, "                    things = self._drop_canceled(things)\n"),
+        (_U, _R7_CALL,
+         "                    worker = self._workers[state]\n"
+         "                    worker(things)\n"),
+        (_U, "    # --------------------------------------------------------------------------\n    #\n    def advance(self, things, state=None, publish=True, push=False, qname=None,\n                              ts=None, fwd=False, prof=True):",
+             "    # --------------------------------------------------------------------------\n    #\n"
+             "    def _drop_canceled(self, things):\n\n"
+             "        if not self._cancel_list:\n"
+             "            return things\n\n"
+             "        return [x for x in things if not self.is_canceled(x)]\n\n\n"
+             "    # --------------------------------------------------------------------------\n    #\n    def advance(self, things, state=None, publish=True, push=False, qname=None,\n                              ts=None, fwd=False, prof=True):")]),
+    dict(name='R05.19 handler fails the things one by one, renamed element, over a copy', edits=[
+        (_U, _WCB_REC + _WCB_ADV,
+         "                        for failed_thing in list(things):\n"
+         "                            failed_thing['exception']        = repr(e)\n"
+         "                            failed_thing['exception_detail'] = \\\n"
+         "                                             '\\n'.join(ru.get_exception_trace())\n"
+         "                            self.advance(failed_thing, rps.FAILED, publish=True,\n"
+         "                                                                   push=False)\n\n")]),
 ]
